@@ -96,6 +96,11 @@ class PropertyRun:
 
 
 def proof_phase(spec, tier):
+    with V.proof_lock():
+        return _proof_phase(spec, tier)
+
+
+def _proof_phase(spec, tier):
     """Steps 1-3. Returns a dict; `proof_break` is set when a proof no longer checks."""
     pid = spec["pid"]
     if "translator" in spec:
